@@ -19,6 +19,15 @@ keeps the very slices and strings the calls return (and the slices it passed to 
 logs their current contents after every step and stores through them (Poke / Fill / scr); TLC
 decides which of them must still be intact (owned copies for ever, Bytes()/Next() aliases until the
 next modifying call).  The exhaustive graph contains the caller's stores as Poke edges.
+
+Collaborators (Buffer.tla, COLLABORATORS): what the writer of WriteTo / the reader of ReadFrom receive
+(number and lengths of the calls) is logged and compared; collaborators may call methods of the buffer
+they serve from inside Write / Read (nested calls: logged inside the line of the outer call, each with
+its own results and the capacity inputs of the window model).  Drivers: the graph actions WriteToRe /
+ReadFromRe (nested scripts = constant Nests), collab_behaviours() (grid of nested calls x constructors x
+orders x answers; plans that fail / short-write / answer (0, nil) on the k-th call; contents of 65535 ..
+200000 bytes) and the random profile "re".  A line the model marks undefined for bytes.Buffer ends the
+checking of its trace without a verdict (SKIPPED).
 """
 import bisect
 import collections
@@ -45,13 +54,42 @@ _T0 = time.time()
 
 def lap(what):
     if os.environ.get("VERIF_C19_TIMING"):
-        sys.stderr.write("[c19 %6.1fs] %s\n" % (time.time() - _T0, what))
+        t = os.times()
+        sys.stderr.write("[c19 %6.1fs own-cpu %6.1fs children-cpu %6.1fs] %s\n" % (
+            time.time() - _T0, t.user + t.system, t.children_user + t.children_system, what))
 
 
 def rune_space(quick):
     if quick:
         return Raw("(-2..2304) \\cup (55290..57350) \\cup (65530..65540) \\cup (1114100..1114115)")
     return Raw("-2..1114115")       # every rune, plus the first invalid ones on both sides
+
+
+def nop(op, n=0, b=()):
+    """A call a collaborator makes on the buffer from inside its Read / Write (a record of the
+    constant Nests; avail/cap/cap2 are the capacity inputs of the window model: everything fits)."""
+    return dict(op=op, n=n, b=list(b), avail=512, cap=0, cap2=0)
+
+
+NESTS_QUICK = [
+    [nop("WriteByte", A)],
+    [nop("ReadByte")],
+    [nop("ReadRune")],
+    [nop("Reset")],
+    [nop("Truncate", 1)],
+    [nop("ReadByte"), nop("UnreadByte")],
+    [nop("Len"), nop("Bytes"), nop("String"), nop("Grow", 0)],
+    [nop("WriteByte", NL), nop("ReadByte")],
+    [nop("ReadBytes", NL)],
+]
+NESTS_FULL = NESTS_QUICK + [
+    [nop("Next", 1), nop("Write", b=[C3])],
+    [nop("ReadRune"), nop("UnreadRune")],
+    [nop("WriteRune", 0xE9)],
+    [nop("Truncate", 2), nop("WriteByte", NL)],
+    [nop("Read", 2)],
+    [nop("ReadString", A), nop("UnreadByte")],
+]
 
 
 def configs(quick):
@@ -62,15 +100,16 @@ def configs(quick):
         Runes={A, 0xE9, -1, 0x20AC},
         Counts=Raw("-1..4"), MaxLen=3, Inits={()},
         RuneSpace=rune_space(quick), DecBytes=set(DEC_QUICK if quick else DEC_FULL),
-        Hold=1, Retain={"Bytes", "Next", "ReadBytes", "ReadString"}, PokeVals={A9})
+        Hold=1, Retain={"Bytes", "Next", "ReadBytes", "ReadString"}, PokeVals={A9},
+        Nests=NESTS_FULL[:12], RePay={4}, ReFins={"err"})
     if quick:
         tiny = dict(small)
         tiny.update(Payloads=[[], [A], [NL], [C3, A9], [C3]], ByteArgs={A, NL, C3}, Runes={A, 0xE9, -1},
-                    Counts=Raw("-1..3"))
+                    Counts=Raw("-1..3"), Nests=NESTS_QUICK, RePay={4}, ReFins={"err"})
         return [("tiny", tiny, True, False)]
     off = dict(RuneSpace=Raw("{}"), DecBytes=set())      # the UTF-8 ASSUMEs are checked once, in "small"
     medium = dict(small)
-    medium.update(off, Payloads=small["Payloads"] + [[E2, X82, AC]], Runes={A, 0xE9, -1, 0x20AC, 0x1F600},
+    medium.update(off, Nests=[NESTS_QUICK[0], NESTS_QUICK[2]], RePay={4}, Payloads=small["Payloads"] + [[E2, X82, AC]], Runes={A, 0xE9, -1, 0x20AC, 0x1F600},
                   Counts=Raw("-1..5"), MaxLen=4)
     large = dict(medium)
     large.update(Payloads=medium["Payloads"] + [[E2, X82], [FF]], ByteArgs={A, NL, C3, A9, AC},
@@ -87,8 +126,10 @@ def impl_config(quick, which="own"):
     """Constants of BufferImpl (the storage algorithm run in lock-step with the abstract model).
     "own": with the caller's kept slices (regions of the storage / private copies) and stores;
     "large" (thorough tier): the bigger capacity space without them, as they multiply the states."""
-    c = dict(Payloads=[[], [A], [C3, A9]], Inits={(), (A,), (C3, A9)}, RuneSpace=set(), DecBytes=set(),
+    c = dict(Payloads=[[], [A], [C3, A9]], Inits={(), (A,), (C3, A9)}, RuneSpace=set(), DecBytes=set(), Nests=[], RePay=set(), ReFins=set(),
              SmallBuf=2, MinReadC=2, Retain={"Bytes", "Next", "ReadBytes"}, PokeVals={A9}, Hold=1)
+    if which == "own":          # a writer that calls back, on the storage algorithm (IWriteToRe)
+        c.update(Nests=[NESTS_QUICK[k] for k in ((0, 1, 2, 3, 5) if quick else (0, 1, 2, 3, 4, 5, 7))], ReFins={"short", "err"})
     if which == "large":
         c.update(ByteArgs={A, C3}, Runes={0xE9, -1}, Counts=Raw("-1..3"), GrowCounts=Raw("-1..4"), MaxLen=3, MaxCap=8,
                  Retain=set(), PokeVals=set(), Hold=0)
@@ -136,10 +177,18 @@ def refinement(ctx, quick):
     if not (set(w.invariant_violated) & {"Rel", "HRel", "AliasCoherent"}):
         raise Undecided("vacuity: a model whose Bytes() does not alias the storage still passes the refinement check:\n"
                         + w.out[-2000:])
+    # third witness: a model in which a nested read's lastRead does not survive the rest of WriteTo
+    broken = spec.replace("ELSE LET s2 == Eat(s1, wn, s1.lr)", "ELSE LET s2 == Eat(s1, wn, 0)")
+    if broken == spec:
+        raise Undecided("witness mutation (re-entrant writer) of Buffer.tla did not apply")
+    w = ctx.tlc("MCI", "MCI.cfg", files={"MCI.tla": wm, "MCI.cfg": wcfg, "Buffer.tla": broken}, name="buffer-impl-witness-reenter",
+                workers=2, timeout=600, allow_fail=True)
+    if not (set(w.invariant_violated) & {"Rel", "Agree"}):
+        raise Undecided("vacuity: a model that forgets what a nested read recorded still passes the refinement check:\n" + w.out[-2000:])
     return runs
 
 
-INVARIANTS = "TypeOK PrevShape RuneAgain UnreadLaws Conservation DelimLaw EofLaw ResetLaw HeldOK AliasCoherent OwnLaw"
+INVARIANTS = "TypeOK PrevShape RuneAgain UnreadLaws Conservation DelimLaw EofLaw ResetLaw HeldOK AliasCoherent OwnLaw ReLaws"
 
 
 def mc_files(consts, dump):
@@ -220,6 +269,11 @@ def label_to_op(label, consts, rng):
         return dict(op="ReadFrom", b=b, pfin=fin, chunks=chunks)
     if name == "WriteTo":
         return dict(op="WriteTo", wa=args[0], fin=args[1])
+    wnest = lambda j: [dict(op=e["op"], n=e["n"], b=list(e["b"])) for e in consts["Nests"][j - 1]]
+    if name == "WriteToRe":        # the writer runs the script Nests[j] on the buffer from inside its Write
+        return dict(op="WriteTo", calls=[dict(fin=args[2], wa=args[1], nest=wnest(args[0]))])
+    if name == "ReadFromRe":       # the reader stores the payload before / after running Nests[j], and ends
+        return dict(op="ReadFrom", calls=[dict(c=list(pl[args[0] - 1]), fin=args[1], order=args[3], nest=wnest(args[2]))])
     raise Undecided("unknown action label %r" % label)
 
 
@@ -442,7 +496,7 @@ def vacuity_gate(nodes, edges):
 
 def trace_consts(trace_name):
     return dict(Payloads=[[]], ByteArgs=set(), Runes=set(), Counts=set(), Inits={()}, RuneSpace=set(),
-                DecBytes=set(), Retain=set(), PokeVals=set(), TraceFile=trace_name)
+                DecBytes=set(), Retain=set(), PokeVals=set(), Nests=[], RePay=set(), ReFins=set(), TraceFile=trace_name)
 
 
 def split_trace(path, parts, scratch, tag):
@@ -478,7 +532,7 @@ def validate(ctx, path, tag, parts):
     mct, cfg = gen_mc("MCT", "BufferTrace", trace_consts("trace.ndjson"),
                       ["SPECIFICATION TSpec", "INVARIANTS Done TTypeOK TPrevShape TRuneAgain THeld", "CHECK_DEADLOCK FALSE"],
                       plain=dict(MaxLen=0, Hold=0))
-    results, errors = {}, []
+    results, errors, skips = {}, [], {}
 
     def one(k, fpath, first):
         try:
@@ -493,6 +547,8 @@ def validate(ctx, path, tag, parts):
             if len(res) != 1:
                 raise Undecided("trace validation %s did not reach the end of the log:\n%s" % (tag, r.out[-3000:]))
             results[k] = [dict(line=b["line"] + first - 1, expected=b["expected"]) for b in res[0]]
+            sk = r.prints("skip")
+            skips[k] = [ln + first - 1 for ln in (sk[0] if sk else [])]
         except Exception as ex:  # noqa: BLE001 - re-raised in the main thread
             errors.append(ex)
 
@@ -512,11 +568,16 @@ def validate(ctx, path, tag, parts):
     bad = []
     for k in sorted(results):
         bad.extend(results[k])
+    SKIPPED[tag] = sorted(x for k in skips for x in skips[k])
     return sorted(bad, key=lambda b: b["line"])
 
 
+SKIPPED = {}       # validation tag -> lines the model declared outside bytes.Buffer's defined behaviour
+
+
 _len_re = re.compile(r'"len":(\d+)')
-OP_ARG_FIELDS = ("op", "n", "b", "pb", "fin", "pfin", "chunks", "wa", "keep", "h", "j")
+_len_wb = re.compile(r'"wl":\[([\d,]*)\]')
+OP_ARG_FIELDS = ("op", "n", "b", "pb", "fin", "pfin", "chunks", "wa", "keep", "h", "j", "obs")
 
 
 def event_to_op(ev):
@@ -526,6 +587,8 @@ def event_to_op(ev):
         del op["pb"]
     if ev["op"] == "ReadFrom":
         op.pop("fin", None)
+    if "plan" in ev:            # a collaborator with a plan per call (nested calls included), sizes as executed
+        op["calls"] = json.loads(ev["plan"])
     op["fixed"] = True
     return op
 
@@ -559,7 +622,27 @@ def retained_diff(ev, exp):
     return None
 
 
+def nested_events(ev):
+    if ev["op"] == "ReadFrom" and "calls" in ev:
+        return [n for c in ev["calls"] for n in c["nest"]]
+    if ev["op"] == "WriteTo" and "nest" in ev:
+        return ev["nest"]
+    return []
+
+
 def diff_field(ev, exp):
+    if ev["op"] == "WriteTo" and "wl" in ev and "wl" in exp and ev["wl"] != exp["wl"]:
+        return "writes-received"            # how the data reached the writer: number and sizes of its Write calls
+    if ev["op"] == "ReadFrom" and (ev.get("after", 0) != 0 or ("planned" in ev and len(ev["calls"]) != ev["planned"])):
+        return "reads-made"
+    if ev["op"] == "ReadFrom" and min([c["pl"] for c in ev.get("calls", [])] + ev.get("pl", []) + [ev.get("minp", 512)]) < 512:
+        return "read-size"
+    for ne, no in zip(nested_events(ev), exp.get("nest", [])):
+        for f in ("pan", "err", "rn", "rm", "rb", "len"):
+            if f in ne and ne.get("pan", "") == "" and ne[f] != no.get(f) and not (f == "rb" and len(ne[f]) > 48):
+                return "nested-%s-%s" % (ne["op"], f)
+        if ne.get("pan", "") != no.get("pan", ""):
+            return "nested-%s-pan" % ne["op"]
     for f in ("pan", "err", "rn", "rm", "rb", "len"):
         if f in ev and f in exp and ev[f] != exp[f]:
             if f in ("rn", "rm", "rb", "err") and ev.get("pan", "") != "":
@@ -609,7 +692,23 @@ def read_rows(path, lazy=False):
     return Rows(lines) if lazy else [json.loads(l) for l in lines]
 
 
-def report(ctx, rows, bad, lock_rows, source_of):
+def report(ctx, rows, bad, lock_rows, source_of, skipped=None):
+    # one rejected line per (key, driver) first, so that the first reported findings show every kind of
+    # divergence and every driver that met it; then the rest (bounded)
+    classes, rest = {}, []
+    for b in bad:
+        ev = rows[b["line"] - 1]
+        try:
+            exp = json.loads(b["expected"])
+        except Exception:  # noqa: BLE001
+            exp = {}
+        cls = ("%s:%s" % (ev["op"], diff_field(ev, exp)), ":".join(source_of(b["line"]).split(":")[:2]),
+               ev["op"] == "WriteTo" and sum(ev.get("wl", [])) > 65536)
+        if cls in classes:
+            rest.append(b)
+        else:
+            classes[cls] = b
+    bad = list(classes.values()) + rest[:40]
     for b in bad:
         ev = rows[b["line"] - 1]
         try:
@@ -629,10 +728,15 @@ def report(ctx, rows, bad, lock_rows, source_of):
         t = bisect.bisect_right(starts, b["line"] - 1)
         first_bad.setdefault(t, b["line"])
     seen = set()
+    skip_at = {}                                 # trace number -> first line outside the defined behaviour
+    for ln in (skipped or []):
+        skip_at.setdefault(bisect.bisect_right(starts, ln - 1), ln)
     for lr in lock_rows:
         t = lr["trace"]
         if t in seen or t - 1 >= len(starts):
             continue
+        if t in skip_at and skip_at[t] <= starts[t - 1] + 1 + lr["step"] + 1:
+            continue  # bytes.Buffer leaves the rest of this trace undefined: nothing to compare
         seen.add(t)
         line = starts[t - 1] + 1 + lr["step"] + 1
         if t in first_bad and first_bad[t] <= line:
@@ -643,15 +747,117 @@ def report(ctx, rows, bad, lock_rows, source_of):
                     dict(kind="buffer", behaviour=beh, lockstep=lr))
 
 
+# ---------------------------------------------------------------------------- scripted collaborators
+
+BIG_SIZES = [65535, 65536, 65537, 70000, 200000]
+
+
+def pattern(n, salt=0):
+    return [97 + (i * 7 + i // 23 + salt) % 26 for i in range(n)]
+
+
+def collab_behaviours(rng, quick):
+    """Behaviours that exercise the collaborators (Buffer.tla, COLLABORATORS): (a) readers / writers that
+    call methods of the same buffer from inside Read / Write - every kind of nested call, sized to fit
+    / not to fit the spare capacity (resolved by the worker against Available()), before and after the
+    reader stores its bytes, from every constructor kind and with the read point at / not at the start
+    of the storage; (b) what the collaborators receive - plans that fail, short-write or answer
+    (0, nil) on their k-th call, and contents around and far above 64 KiB.  Returns [(group, behaviour)]."""
+    out = []
+    W = lambda kind, op="WriteString": dict(op=op, kind=kind)
+    nests = [
+        ("write-realloc", [W("nofitbig")]), ("write-nofit", [W("nofit", "Write")]), ("write-fit", [W("fit", "Write")]),
+        ("write-fill", [W("fill")]), ("grow-nofit", [dict(op="Grow", kind="nofit")]), ("grow-realloc", [dict(op="Grow", kind="big")]),
+        ("grow-fit", [dict(op="Grow", kind="fit")]), ("reset", [dict(op="Reset")]), ("truncate", [dict(op="Truncate", kind="lenm1")]),
+        ("truncate-half-write", [dict(op="Truncate", kind="half"), W("fit")]), ("readbyte", [dict(op="ReadByte")]),
+        ("readrune", [dict(op="ReadRune")]), ("next-half", [dict(op="Next", kind="half")]), ("read-all", [dict(op="Read", kind="len")]),
+        ("readbytes", [dict(op="ReadBytes", n=NL)]), ("writebyte", [dict(op="WriteByte", n=A)]), ("writerune", [dict(op="WriteRune", n=0x20AC)]),
+        ("observe", [dict(op="Len"), dict(op="Bytes"), dict(op="String")]), ("read-unread", [dict(op="ReadByte"), dict(op="UnreadByte")]),
+        ("realloc-then-read", [W("nofitbig"), dict(op="ReadByte")]), ("two-reallocs", [W("nofit"), W("nofitbig", "Write")]),
+        ("read-then-realloc", [dict(op="ReadRune"), W("nofitbig")]), ("drain-then-write", [dict(op="Read", kind="len"), W("fit")]),
+    ]
+    ctors = [dict(how="zero", b=[]), dict(how="string", b=[A, 98, 99]), dict(how="bytes", b=[C3, A9, NL, A, 98]),
+             dict(how="cap", b=pattern(100), cap=100), dict(how="cap", b=pattern(40), cap=2048), dict(how="marshal", b=[A, 98])]
+    probes = [[dict(op="UnreadByte")], [dict(op="UnreadRune")], [dict(op="ReadByte"), dict(op="UnreadByte")],
+              [dict(op="ReadBytes", n=NL)], [dict(op="Grow", kind="nofit"), dict(op="String")],
+              [dict(op="ReadString", n=NL), dict(op="UnreadByte"), dict(op="String")]]
+    fresh = lambda ops: json.loads(json.dumps(ops))          # the worker resolves sizes in place: no sharing
+
+    def beh(group, ctor, pre, op, post):
+        new = dict(op="New", how=ctor["how"], b=list(ctor["b"]), cap=ctor.get("cap", 0), hold=0)
+        out.append((group, dict(new=new, obs="every", ops=fresh(pre + [op] + post))))
+
+    # (a) re-entrant readers and writers
+    pres = [[], [dict(op="ReadByte")], [dict(op="WriteString", b=pattern(30, 3)), dict(op="Next", n=7)]]
+    for name, nest in nests:
+        for ci, ctor in enumerate(ctors):
+            if quick and (ci + len(name)) % 2 and name not in ("write-realloc", "grow-realloc", "reset"):
+                continue
+            for pre in (pres if not quick else [pres[rng.randrange(len(pres))], pres[0]]):
+                if pre and not ctor["b"] and pre[0]["op"] == "ReadByte":
+                    continue
+                for order in ("pre", "post"):
+                    for c, fin in (([104, 101, 108, 108, 111], "eof"), ([104, 105], "more"), ([], "err")):
+                        calls = [dict(c=c, fin=fin, order=order, nest=nest)]
+                        if fin == "more":
+                            calls += [dict(c=[], fin="more"), dict(c=[33], fin="eof", order="pre")]
+                        beh("reenter:ReadFrom:" + name, ctor, pre, dict(op="ReadFrom", calls=calls), rng.choice(probes))
+                for fin, wa in (("ok", 0), ("short", 1), ("err", 0), ("err", 2), ("zero", 0)):
+                    beh("reenter:WriteTo:" + name, ctor, pre, dict(op="WriteTo", calls=[dict(fin=fin, wa=wa, nest=nest)]),
+                        rng.choice(probes))
+    # (b) what the collaborators receive: plans per call, small contents
+    wplans = [[dict(fin="ok")], [dict(fin="ok"), dict(fin="err", wa=0)], [dict(fin="ok"), dict(fin="short", wa=1)],
+              [dict(fin="ok"), dict(fin="ok"), dict(fin="err", wa=3)], [dict(fin="short", wa=5), dict(fin="ok")],
+              [dict(fin="zero"), dict(fin="ok")], [dict(fin="err", wa=4096), dict(fin="ok")], [dict(fin="over")]]
+    for size in (0, 1, 63, 64, 65, 511, 512, 513, 4096, 4097):
+        for skip in (0, 1):
+            for plan in wplans:
+                beh("received:WriteTo:small", dict(how="zero", b=[]), [dict(op="Write", b=pattern(size, size)), dict(op="Next", n=skip)],
+                    dict(op="WriteTo", calls=plan), [dict(op="UnreadByte"), dict(op="Len")])
+    for k in (1, 2, 3, 5):
+        for kind in ("zero", "err", "neg", "eof"):
+            for ctor in ctors[:4]:
+                calls = [dict(c=pattern(rng.choice([1, 7, 300, 512]), j), fin="more") for j in range(k - 1)]
+                calls.append(dict(c=[], fin="more") if kind == "zero" else dict(c=pattern(rng.choice([0, 3]), k), fin=kind))
+                if kind == "zero":
+                    calls += [dict(c=pattern(5, 1), fin="more"), dict(c=[], fin="more"), dict(c=[], fin=rng.choice(["eof", "err"]))]
+                beh("received:ReadFrom:plan", ctor, [], dict(op="ReadFrom", calls=calls), [dict(op="Len"), dict(op="ReadByte")])
+    # (b) contents around and above 64 KiB
+    sizes = BIG_SIZES
+    bigplans = [[dict(fin="ok")], [dict(fin="ok"), dict(fin="err", wa=0)], [dict(fin="ok"), dict(fin="short", wa=10)],
+                [dict(fin="err", wa=65536)], [dict(fin="short", wa=65535)], [dict(fin="ok"), dict(fin="ok"), dict(fin="err", wa=1)],
+                [dict(fin="zero")], [dict(fin="ok", nest=[dict(op="Len"), dict(op="ReadByte")])]]
+    for si, size in enumerate(sizes):
+        for skip in (0, 1, 100):
+            plans = bigplans if not quick else [bigplans[1], bigplans[(si + skip) % len(bigplans)]]
+            if size == 200000:              # (log volume: every byte the writer sees is compared by TLC)
+                plans = (plans[:1] if skip == 0 else []) if quick else (bigplans[:4] if skip == 0 else [bigplans[1]])
+            for plan in plans:
+                new = dict(op="New", how=rng.choice(["zero", "cap"]), b=[], cap=rng.choice([0, 64, 70000]), hold=0)
+                ops = [dict(op="Write", pat=[size, skip]), dict(op="Next", n=skip), dict(op="WriteTo", calls=fresh(plan), obs="full"),
+                       dict(op="Len"), dict(op="ReadByte")]
+                out.append(("received:WriteTo:big", dict(new=new, obs="sparse", ops=ops)))
+    for si, size in enumerate(sizes if not quick else sizes[1:4]):
+        for chunks, pfin in (([], "eof"), ([512] * 3, "eofdata"), ([65536], "err"), ([1, 65535], "errdata")):
+            if quick and (si + len(chunks)) % 2:
+                continue
+            new = dict(op="New", how=rng.choice(["zero", "string", "cap"]), b=[A, 98], cap=rng.choice([2, 600, 66000]), hold=0)
+            ops = [dict(op="ReadFrom", pat=[size, 5], pfin=pfin, chunks=chunks, obs="full"),
+                   dict(op="WriteTo", calls=[dict(fin="ok"), dict(fin="err", wa=0)], obs="full"), dict(op="Len")]
+            out.append(("received:ReadFrom:big", dict(new=new, obs="sparse", ops=ops)))
+    return out
+
+
 def run_script(ctx, script, tag, parts):
     sp = os.path.join(ctx.scratch, tag + "-script.json")
     with open(sp, "w") as fh:
-        json.dump(script, fh)
+        fh.write(json.dumps(script, separators=(",", ":")))
     prefix = os.path.join(ctx.scratch, tag)
     lap("script written")
     ctx.run_worker(["buffer", sp, prefix], testing=True, timeout=1800)
     lap("worker done")
     pc, bb, lock = prefix + ".pc.ndjson", prefix + ".bb.ndjson", prefix + ".lock.ndjson"
+    lap("log size %.1f MB" % (os.path.getsize(pc) / 1e6))
     identical = filecmp.cmp(pc, bb, shallow=False)
     # the reference first: the specification must accept bytes.Buffer itself
     bad_bb = validate(ctx, bb, tag + "-bb", parts)
@@ -766,13 +972,20 @@ def run(ctx, replay):
             ctx.nontrivial += info["state_changing_edges_executed"]
         graph_info.append(info)
     n_graph = len(behaviours)
+    # ---- 1b. scripted collaborators: re-entrant readers / writers, plans per call, contents above 64 KiB
+    collab = collab_behaviours(rng, quick)
+    behaviours.extend(b for _, b in collab)
+    n_scripted = len(behaviours)
+    lap("collaborator scripts: %d" % len(collab))
     # ---- 2. seeded random drivers
     if quick:
         rnd = [dict(seed=ctx.seed * 1000 + 1, traces=700, min_len=40, max_len=80, profile="small"),
-               dict(seed=ctx.seed * 1000 + 2, traces=50, min_len=60, max_len=120, profile="big")]
+               dict(seed=ctx.seed * 1000 + 2, traces=50, min_len=60, max_len=120, profile="big"),
+               dict(seed=ctx.seed * 1000 + 3, traces=600, min_len=5, max_len=14, profile="re")]
     else:
         rnd = [dict(seed=ctx.seed * 1000 + 1, traces=20000, min_len=40, max_len=100, profile="small"),
-               dict(seed=ctx.seed * 1000 + 2, traces=4000, min_len=80, max_len=200, profile="big")]
+               dict(seed=ctx.seed * 1000 + 2, traces=4000, min_len=80, max_len=200, profile="big"),
+               dict(seed=ctx.seed * 1000 + 3, traces=5000, min_len=5, max_len=16, profile="re")]
     script = dict(seed=ctx.seed, behaviours=behaviours, random=rnd)
     wth.join()
     if "ex" in wbox:
@@ -793,19 +1006,49 @@ def run(ctx, replay):
 
     def source_of(line):
         k = bisect.bisect_right(starts, line - 1)
-        return "edge cover of the TLC graph" if k <= n_graph else "seeded random driver"
+        if k <= n_graph:
+            return "edge cover of the TLC graph"
+        return "scripted collaborators, group %s" % collab[k - n_graph - 1][0] if k <= n_scripted else "seeded random driver"
 
-    report(ctx, rows, bad, lock_rows, source_of)
+    report(ctx, rows, bad, lock_rows, source_of, SKIPPED.get("main-bb" if identical else "main-pc", []))
     ctx.traces += len(starts)
     ctx.evaluations += len(rows) - len(starts)
-    rand_rows = rows[starts[n_graph]:] if n_graph < len(starts) else []
+    rand_rows = rows[starts[n_scripted]:] if n_scripted < len(starts) else []
     sigs = set()
     for r_ in rand_rows:
         if r_["op"] != "New":
             sigs.add((r_["op"], r_["pan"], r_.get("err"), min(r_.get("rn", 0), 5), min(abs(r_["n"]), 70),
                       min(len(r_.get("rb", ())), 70)))
     ctx.nontrivial += len(sigs)
-    ctx.extra.update(graphs=graph_info, graph_behaviours=n_graph, random_traces=len(starts) - n_graph,
+    skipped = SKIPPED.get("main-bb" if identical else "main-pc", [])
+    skipped_traces = set(bisect.bisect_right(starts, ln - 1) for ln in skipped)
+    coll = collections.Counter()
+    for l in rows.lines:
+        if l.startswith('{"op":"ReadFrom"') or l.startswith('{"op":"WriteTo"'):
+            coll["calls"] += 1
+            if '"nest":[{' in l:
+                coll["with_calls_from_inside"] += 1
+                if '"cap":' in l and re.search(r'"cap":(\d+),"cap2":(?!\1,)', l):
+                    coll["with_a_reallocation_from_inside"] += 1
+            if '"wl":[' in l:
+                coll["writers_call_lengths_compared"] += 1
+            m = _len_wb.search(l)
+            if m and sum(int(x) for x in m.group(1).split(",") if x) > 65536:
+                coll["writes_above_64KiB"] += 1
+    groups = collections.Counter(g.rsplit(":", 1)[0] for g, _ in collab)
+    defined = collections.Counter(collab[k - n_graph - 1][0].rsplit(":", 1)[0] for k in range(n_graph + 1, n_scripted + 1)
+                                  if k not in skipped_traces)
+    for g in groups:
+        if ctx.violations:
+            break
+        if g.startswith("reenter") and defined[g] * 2 < groups[g]:
+            raise Undecided("collaborator scripts of group %s: only %d of %d stay inside what bytes.Buffer defines" % (g, defined[g], groups[g]))
+    if not ctx.violations and (coll["with_a_reallocation_from_inside"] < 20 or coll["writes_above_64KiB"] < 5):
+        raise Undecided("vacuous collaborator drivers: %s" % dict(coll))
+    ctx.nontrivial += len(set(g for g, _ in collab))
+    ctx.extra.update(collaborators=dict(scripted_behaviours=dict(groups), scripted_behaviours_with_verdict=dict(defined),
+                                        lines_outside_the_defined_behaviour_of_bytes_Buffer=len(skipped), **coll))
+    ctx.extra.update(graphs=graph_info, graph_behaviours=n_graph, random_traces=len(starts) - n_scripted,
                      trace_events=len(rows), corner_states_present=gates,
                      bytes_buffer_trace="identical to the PrintCtx trace, validated once" if identical
                      else "differs from the PrintCtx trace, both validated",
@@ -830,6 +1073,9 @@ def run(ctx, replay):
         "writers never return a negative count, readers never return more than len(p) (undefined for bytes.Buffer too)",
         "contents longer than 96 bytes are compared after every 12th call on average and at the end of a trace; "
         "every byte that leaves the buffer through a read is compared in full",
+        "collaborators that call back: the reference is the Go 1.23 source of bytes.Buffer (its documentation is silent); the model's "
+        "reading of it is validated against bytes.Buffer on every run; outcomes that depend on storage nobody wrote or leave a negative "
+        "Len() are declared undefined and get no verdict; capacity inputs (Available, Cap, read offset) are observed from inside the collaborator",
         "ownership: the worker keeps the returned slices / strings themselves (results up to 64 bytes, at most `hold` of them, "
         "oldest forgotten first) and logs their current bytes after every step; an alias (Bytes, Next) is dropped - by the "
         "model and by the worker - at the next call of any method other than Len / Bytes / String, so nothing bytes.Buffer "
@@ -840,6 +1086,8 @@ def run(ctx, replay):
                            "each followed by every identification probe of its target state (and every Grow transition again "
                            "from each constructor kind), executed on PrintCtx and bytes.Buffer with the caller keeping the "
                            "returned slices (non-trivial = executed state-changing transitions) + seeded random histories "
-                           "(non-trivial = distinct (call, panic, error, result-size, argument-size) signatures); all "
+                           "(non-trivial = distinct (call, panic, error, result-size, argument-size) signatures) + scripted "
+                           "collaborators (nested calls x constructors x order x answers, plans per call, 64 KiB..200000 byte contents; "
+                           "non-trivial = groups); all "
                            "validated by TLC against BufferTrace, kept slices included",
                       exhaustive=exhaustive)
